@@ -263,7 +263,8 @@ func prettyPrintCompact(ps *PrintState, s Node, i int) bool {
 		last = ps.last[len(ps.last)-1]
 	}
 	// `[` and `(` right after an expression would index/call it, 2 words (or a number and .5) would merge into one.
-	needSpace := first == '[' || first == '(' || (isWordByte(last) && (isWordByte(first) || first == '.'))
+	needSpace := first == '[' || first == '(' || (isWordByte(last) && (isWordByte(first) || first == '.')) ||
+		(last == '.' && isWordByte(first)) // `1.` followed by `0` or `e5`
 	if needSpace || (prevIsExpr && ps.last != "}" && ps.last != "]") {
 		if i > 0 {
 			_, _ = ps.Out.Write([]byte{' '})
